@@ -52,7 +52,11 @@ def val2bytes (att : List (Nat × List Kind)) (v : PyVal) (ty : Ty) : R Bytes :=
       if !kinds.contains k then .error .typeE
       else if l = cX then
         match v with
-        | .bytes b => .ok b
+        | .bytes b =>
+          -- `if len(val) != attsiz(att): raise ValueError` (fix eff6ead)
+          (match attsiz ty with
+           | .error e => .error e
+           | .ok n => if (b.length : Int) = n then .ok b else .error .valueE)
         | _ => .error .typeE
       else if l = cC then
         match v with
